@@ -652,7 +652,9 @@ func runScenario(sc *scenario, b run.Batch, r *ev.Result) (fatal bool) {
 		if sc.LateOrig {
 			sc.Event, sc.LateGroup, sc.InitialG0, nr = "", false, false, 0
 			sc.Decoys = 0 // originals certainly travel through the relay, whatever primary the client draws
-			sc.Now1 = sc.Now0
+			// the held-back originals reach the server up to three timeslots after their own retransmissions
+			// did: the identical datagram arriving again later is still the same report
+			sc.Now1 = sc.Now0 + uint32(rng.Intn(4))
 			var fates []TCPFate
 			for j := 0; j < 1+sc.Decoys; j++ {
 				fates = append(fates, TCPFate{Kind: "pass"})
